@@ -147,11 +147,15 @@ def fault_histories(workloads, cls, tier, rng, label, kind=None):
         limit = 420 if tier == "quick" else 100000
         if w.get("every_k"):
             limit = max(limit, 3000)
-        if len(ks) > limit:
+        if w.get("fault_ops"):
+            # long workload (thousands of calls in the read-backs): every position INSIDE the named API calls only
+            fo = w["fault_ops"] if tier == "thorough" or "fault_ops_quick" not in w else w["fault_ops_quick"]
+            ks = sorted(k for oi in fo if oi + 1 < len(bounds) for k in range(bounds[oi] + 1, bounds[oi + 1] + 1))
+        elif len(ks) > limit:
             ks = fault_positions(n, bounds, limit)
         for k in ks:
             hs.append(dict(w, id=f"{label}{wi}_k{k}", faults=dict({"class": cls, "at": [k]}, **({"kind": kind} if kind else {}))))
-        if tier == "thorough":
+        if tier == "thorough" and not w.get("fault_ops"):
             for _ in range(min(2000, n * 3)):
                 k1, k2 = sorted(rng.sample(range(1, n + 1), 2))
                 hs.append(dict(w, id=f"{label}{wi}_k{k1}_{k2}", faults={"class": cls, "at": [k1, k2]}))
